@@ -34,7 +34,7 @@ CHECKS = {
     "C11": (False, "data-dependence rule on the opener-search cache key (EMPH-K) and saved-index staleness path rule (EMPH-S)",
             "Two necessary conditions for the openers_bottom optimisation to be behaviour-preserving: the cache key depends on every closer field the match predicate reads, and saved stack indices are re-based on every path that deletes stack entries inside the closer loop. The algorithm's result itself is value-level and not decided.",
             "go/ssa def-use; the match predicate's read set is derived from its SSA"),
-    "C12": (False, "SSA dominance/provenance rules: first-wins guard, match-before-reference, single normaliser, two-pass order, document-order traversal",
+    "C12": (True, "SSA dominance/provenance rules: first-wins guard, match-before-reference, single normaliser, two-pass order, document-order traversal",
             "Structural parts: Extract never overwrites an existing key, every node made a reference is dominated by a successful MatchReference of the same key, every stored key/ref is produced by the one normaliser, definitions are extracted before inlines are rewritten, containers are descended in document order. The normaliser's own Unicode semantics and label recognition are not decided.",
             "go/ssa dominators and def-use"),
     "C14": (False, "typed-AST decision symmetry rule for LF/CR (SYM) with two structurally recognised exemptions",
